@@ -8,6 +8,14 @@ def classify(case):
     several snaps with a busy one among them, everything else holds and clock ticks. (The former class
     system-hold-until-now is repaired in /repo, commit c2c6542; a recurrence is a VIOLATION.)"""
     ops = (case.get("input") or {}).get("ops") or []
+    # hook-rehold-after-refusal: only the dedicated histories of the `hooks` driver contain a hook run that asks for --hold
+    # and then issues a further snapctl command (a second --hold, or --proceed before failing)
+    hooks = [o for o in ops if o.get("k") == "hook"]
+    if hooks and all(o.get("k") in ("hook", "tick") for o in ops):
+        multi = [o for o in hooks if "hold" in (o.get("script") or [])[:-1]]
+        if len(multi) == 1 and all((o.get("script") or []) == ["hold"] and not o.get("fails") for o in hooks if o is not multi[0]):
+            return "hook-rehold-after-refusal"
+        return None
     reqs = [o for o in ops if o.get("k") not in ("hold", "tick")]
     if len(reqs) == 1 and reqs[0].get("k") == "update" and len(reqs[0].get("snaps") or []) > 1 and reqs[0].get("busy") \
             and "lr" not in (case.get("input") or {}):
@@ -30,6 +38,11 @@ SPEC = dict(
              n=dict(quick=40, thorough=1500), timeout=dict(quick=300, thorough=1500),
              ev=dict(requires=["V.models.Holds"], case_type="Holds.case",
                      mismatch="Holds.mismatch", monitor="Holds.monitor_fail")),
+        dict(name="hooks", kind="test", pkg="./overlord/hookstate", run="TestHookManager",
+             gocheck="verifC15HookSuite.TestVerifC15Hooks$",
+             n=dict(quick=12, thorough=400), timeout=dict(quick=300, thorough=1500),
+             ev=dict(requires=["V.models.Holds"], case_type="Holds.case",
+                     mismatch="Holds.mismatch", monitor="Holds.monitor_fail")),
     ],
     classify=classify,
     rule=("histories of 6-25 operations on 2-4 installed snaps run against the real HoldRefresh / HoldRefreshesBySystem / "
@@ -48,12 +61,21 @@ SPEC = dict(
           "conflict; fixed part: snap 2 holds snap 1, after 1 h / 47 h a request (5 kinds) hits snap 1, snap 2 holds again, the clock "
           "passes 48 h after the first hold (10 histories), the 2 histories of the recorded finding, 1 conflict history; 40 random "
           "histories. The same table / HeldSnaps / clock observations and the same monitor as the holds driver; the monitor keeps its "
-          "own episode starts and allows a hold record to disappear only after proceed, an accepted refresh request, or a refused hold."),
+          "own episode starts and allows a hold record to disappear only after proceed, an accepted refresh request, or a refused hold. "
+          "hooks driver (overlord/hookstate, gateAutoRefreshHookSuite fixtures, clock set through an overlay-only export shim): real runs "
+          "of snap-a's gate-auto-refresh hook through the HookManager, the hook body being a script of real `snapctl refresh --hold` / "
+          "`--proceed` commands (ctlcmd.Run) that exits 0 or non-zero, so the real Done/Error fallbacks run; fixed part: hold, 24 h, hold, "
+          "24 h (or 1 ns less), then each of 7 hook shapes (hold+fail, hold, silent fail, silent ok, proceed, proceed+fail, proceed then "
+          "hold), observed again 1 h and 13 h later (14 histories), the 2 histories of the recorded finding; 12 random histories. A "
+          "hook run is one atomic step for the monitor: a record that is there before and after it must keep its episode start."),
     exhaustive=dict(quick=False, thorough=False),
     trusted_base=[
         "translators/holdconsts.go (go/ast): constant expressions of the four durations; shape of the two HoldRefresh call sites",
         "hand-written model coq/models/Holds.v of overlord/snapstate/autorefresh_gating.go, tied by the differential run "
         "(harness/overlay/overlord/snapstate/zz_verif_c15_test.go): the whole snaps-hold table and HeldSnaps are compared after every operation",
+        "hook runs: the model expands a hook run into HoldRefresh / ProceedWithRefresh calls as ctlcmd/refresh.go and hookstate/hooks.go "
+        "do (harness/overlay/overlord/hookstate/zz_verif_c15_test.go); the hook body is a script, snap-confine / the real hook binary are not run; "
+        "harness/overlay/overlord/snapstate/zz_verif_c15_export.go (overlay-only, tag verif) exposes the setter of snapstate's clock",
         "refresh requests: whether a request is accepted or refused (running apps, conflicts, store) is an outcome recorded by the "
         "requests driver, not modelled; the model says what each outcome does to the hold records "
         "(harness/overlay/overlord/snapstate/zz_verif_c15_api_test.go; handlers never run, LastRefreshTime is set by the driver)",
@@ -70,6 +92,10 @@ SPEC = dict(
         "KNOWN FINDING refused-updatemany-drops-holds: `a refused refresh request leaves every hold record alone` is proved for requests "
         "that name one snap (C15_refused_refresh_changes_nothing) and refuted for requests naming several (C15_refused_multi_snap_request_refuted); "
         "for those the 48 h bound holds per model episode only, and a refused request ends the episode of the snaps prepared before the refusal",
+        "KNOWN FINDING hook-rehold-after-refusal: `a hook run never restarts a hold episode` is proved for hooks that only ask for --hold "
+        "or say nothing (C15_hook_hold_is_one_hold, C15_hook_hold_keeps_episode) and refuted for hooks that issue a further snapctl command "
+        "after a refused --hold (C15_hook_rehold_refuted); across hook runs a refused hold ends the episode (the property's wording), so a "
+        "gating snap whose hold was refused can hold again at the next hook run if the snap was not refreshed in between",
         "an accepted refresh request drops the hold records when its tasks are created, not when the refresh has happened; a refresh change "
         "that later fails or is undone does not restore them (no undo touches snaps-hold), so the gating snap can start a new episode although "
         "the snap was not refreshed: by the property's wording the episode ended with the accepted request; the 90 d bound is unaffected",
